@@ -786,6 +786,18 @@ fn plain_readout(dir: &Path) -> Result<DirState, String> {
     Ok(m)
 }
 
+fn list_dir(dir: &Path) -> BTreeMap<String, Vec<u8>> {
+    let mut m = BTreeMap::new();
+    if let Ok(rd) = std::fs::read_dir(dir) {
+        for e in rd.flatten() {
+            if let Ok(b) = std::fs::read(e.path()) {
+                m.insert(e.file_name().to_string_lossy().to_string(), b);
+            }
+        }
+    }
+    m
+}
+
 fn write_dir_image(dir: &Path, s: &DirState) {
     let _ = std::fs::remove_dir_all(dir);
     let _ = std::fs::create_dir_all(dir);
@@ -810,7 +822,12 @@ impl Scenario for PlainSc {
         let scen = self.name();
         let cfg = cx.src.chan("cfg");
         let planned = 3 + cfg.below(10);
-        let fam = cfg.below(3);
+        // family 0 used to ASSUME an in-place write of the record file; it is replaced by family 3
+        // (crash points inside the real put), which observes what the code leaves behind
+        let fam = match cfg.below(4) {
+            0 => 3,
+            f => f,
+        };
         let which = cfg.small(6) as usize;
         let scratch = Scratch::new(cx, "plain");
         let dir = scratch.path("store");
@@ -910,7 +927,7 @@ impl Scenario for PlainSc {
         let mut tl = Tally::default();
         let puts: Vec<&(usize, u32, bool)> = trans.iter().filter(|t| t.2).collect();
         let removes: Vec<&(usize, u32, bool)> = trans.iter().filter(|t| !t.2).collect();
-        let famname = ["new_record_prefix", "record_cut", "removed_present"][fam as usize];
+        let famname = ["new_record_prefix", "record_cut", "removed_present", "crash_point"][fam as usize];
         match fam {
             0 if !puts.is_empty() => {
                 // the put that led to S(t) was interrupted: its file is absent or any prefix
@@ -943,6 +960,76 @@ impl Scenario for PlainSc {
                     let desc = format!("file {} cut at {} of {}", id, l, data.len());
                     let o = recover(&scen, &format!("{} {}", famname, desc), || plain_readout(&imgdir));
                     judge(cx, &mut v, &mut tl, "PlainBlobStore", famname, &desc, o, &allowed, &show_dir);
+                }
+            }
+            3 if !puts.is_empty() => {
+                // The put that led to S(t) is re-executed by the REAL code on a copy of S(t-1) and killed at
+                // each guarded crash point inside PlainBlobStore::put; what the code had left on disk at that
+                // instant is the image (files written but not yet synced may survive as any prefix, and a
+                // directory entry that was never synced may be missing).  Nothing about the write discipline
+                // is assumed here: if put wrote in place, the half-written record file would show up.
+                let &(t, id0, _) = puts[puts.len() - 1 - which.min(puts.len() - 1)];
+                let data = states[t][&id0].clone();
+                cx.ev(format!("crash points inside the put of S{} -> S{} ({} bytes), family {}", t - 1, t, data.len(), famname));
+                for stage in ["plain.put.crash_after_create", "plain.put.crash_after_write", "plain.put.crash_after_sync"] {
+                    write_dir_image(&imgdir, &states[t - 1]);
+                    let before: BTreeMap<String, Vec<u8>> = list_dir(&imgdir);
+                    let fired = std::sync::Arc::new(std::sync::atomic::AtomicBool::new(false));
+                    let f2 = fired.clone();
+                    zsim_core::hooks::set_fault(Some(Box::new(move |site: &'static str| {
+                        if site == stage {
+                            f2.store(true, std::sync::atomic::Ordering::SeqCst);
+                            true
+                        } else {
+                            false
+                        }
+                    })));
+                    let put_result = match PlainBlobStore::new(&imgdir) {
+                        Ok(mut st) => st.put(&data).map_err(|e| e.to_string()),
+                        Err(e) => Err(format!("open: {}", e)),
+                    };
+                    zsim_core::hooks::set_fault(None);
+                    let did_fire = fired.load(std::sync::atomic::Ordering::SeqCst);
+                    if did_fire {
+                        cx.fault("crash_point");
+                    } else {
+                        cx.probe("crash_point_not_reached");
+                    }
+                    // the state the completed put would have produced on this copy
+                    let mut done = states[t - 1].clone();
+                    if let Ok(id) = &put_result {
+                        done.insert(*id, data.clone());
+                    }
+                    let mut allowed: Vec<(usize, &DirState)> = states[..t].iter().enumerate().collect();
+                    if put_result.is_ok() {
+                        allowed.push((t, &done));
+                    }
+                    let after = list_dir(&imgdir);
+                    let dirty: Vec<String> = after.iter().filter(|(k, v)| before.get(*k) != Some(*v)).map(|(k, _)| k.clone()).collect();
+                    let desc0 = format!("{} fired={} dirty files {:?}", stage.rsplit('.').next().unwrap_or(stage), did_fire, dirty);
+                    let o = recover(&scen, &format!("{} {} as left", famname, desc0), || plain_readout(&imgdir));
+                    judge(cx, &mut v, &mut tl, "PlainBlobStore", famname, &format!("{} as left", desc0), o, &allowed, &show_dir);
+                    // unsynced data may be lost: every prefix of every file touched before its sync, or the file missing
+                    if stage != "plain.put.crash_after_sync" || !did_fire {
+                        for name in &dirty {
+                            let full = after[name].clone();
+                            let fpath = imgdir.join(name);
+                            for l in trunc_lengths(full.len()) {
+                                if l == full.len() {
+                                    continue;
+                                }
+                                let _ = std::fs::write(&fpath, &full[..l]);
+                                let desc = format!("{} file {} survives as {} of {} bytes", stage.rsplit('.').next().unwrap_or(stage), name, l, full.len());
+                                let o = recover(&scen, &format!("{} {}", famname, desc), || plain_readout(&imgdir));
+                                judge(cx, &mut v, &mut tl, "PlainBlobStore", famname, &desc, o, &allowed, &show_dir);
+                            }
+                            let _ = std::fs::remove_file(&fpath);
+                            let desc = format!("{} file {} never reached the directory", stage.rsplit('.').next().unwrap_or(stage), name);
+                            let o = recover(&scen, &format!("{} {}", famname, desc), || plain_readout(&imgdir));
+                            judge(cx, &mut v, &mut tl, "PlainBlobStore", famname, &desc, o, &allowed, &show_dir);
+                            let _ = std::fs::write(&fpath, &full);
+                        }
+                    }
                 }
             }
             2 if !removes.is_empty() => {
